@@ -34,6 +34,8 @@ type cmd struct {
 	Scenario json.RawMessage `json:"scenario"`
 	Verbose  bool            `json:"verbose"`
 	Samples  int             `json:"samples"`
+	Explicit bool            `json:"explicit"` // run: take the schedule from Picks instead of drawing it
+	Picks    []uint16        `json:"picks"`
 }
 
 type aggregate struct {
@@ -107,8 +109,21 @@ func TestWorker(t *testing.T) {
 				o.emit(map[string]any{"kind": "error", "msg": err.Error()})
 				continue
 			}
+			kernel.Made, kernel.Last, kernel.ForceNext = 0, nil, nil
+			if c.Explicit {
+				kernel.ForceNext = &kernel.Schedule{Picks: c.Picks}
+			}
 			res := runOne(t, p, sc, c.Verbose, races)
+			kernel.ForceNext = nil
 			res.Scenario = c.Scenario
+			res.Kernels = kernel.Made
+			if k := kernel.Last; k != nil && kernel.Made == 1 {
+				res.Diverged = k.Diverged
+				res.Picks = make([]uint16, len(k.Choices))
+				for i, ch := range k.Choices {
+					res.Picks[i] = ch + 1
+				}
+			}
 			o.emit(map[string]any{"kind": "result", "result": res})
 		case "seeds":
 			for _, s := range c.Seeds {
